@@ -18,256 +18,6 @@ verus! {
 
 //@ include units/shared/miner_funds.inc
 
-pub type Error = AnyhowError;
-//@ const runtime/src/builtin/network.rs EXPECTED_LEADERS_PER_EPOCH
-//@ const actors/miner/src/monies.rs CONSENSUS_FAULT_FACTOR
-//@ const actors/miner/src/policy.rs CONSENSUS_FAULT_REPORTER_DEFAULT_SHARE
-//@ const actors/miner/src/lib.rs ERR_BALANCE_INVARIANTS_BROKEN
-//@ include units/shared/miner_info.inc
-//@ item actors/miner/src/types.rs ReportConsensusFaultParams
-//@ item runtime/src/builtin/reward/mod.rs ThisEpochRewardReturn
-pub mod ext {
-    pub mod reward {
-//@ const actors/miner/src/ext.rs THIS_EPOCH_REWARD_METHOD
-    }
-    pub mod power {
-//@ const actors/miner/src/ext.rs UPDATE_PLEDGE_TOTAL_METHOD
-    }
-    pub mod market {
-        use super::super::*;
-//@ const actors/miner/src/ext.rs ON_MINER_SECTORS_TERMINATE_METHOD
-//@ item actors/miner/src/ext.rs OnMinerSectorsTerminateParams
-    }
-}
-// ---------------- small send helpers ----------------
-/// value burnt by this activation: successful plain sends to the burnt-funds actor
-pub open spec fn is_burn(s: SendRec) -> bool { s.to == BURNT_FUNDS_ACTOR_ADDR && s.method == METHOD_SEND }
-pub open spec fn is_pledge_note(s: SendRec) -> bool { s.to == STORAGE_POWER_ACTOR_ADDR && s.method == ext::power::UPDATE_PLEDGE_TOTAL_METHOD }
-
-//@ fn actors/miner/src/lib.rs burn_funds sub0="log :: debug !=>log_debug !"
-    requires !old(rt).in_tx@,
-    ensures
-        // burns exactly `amount` (one plain send to the burnt-funds actor) or nothing when amount <= 0; fails iff that send fails
-        amount@ <= 0 ==> r.is_ok() && *final(rt) == *old(rt),
-        amount@ > 0 ==> rt_pushed(old(rt), final(rt)) && rt_frame(old(rt), final(rt)),
-        amount@ > 0 ==> is_burn(final(rt).sends@.last()) && final(rt).sends@.last().value == amount@,
-        amount@ > 0 ==> final(rt).sends@.last().ok == r.is_ok(),
-        amount@ > 0 ==> final(rt).state_id == old(rt).state_id,
-        amount@ > 0 && r.is_ok() ==> final(rt).balance@ == old(rt).balance@ - amount@,
-        amount@ > 0 && r.is_err() ==> final(rt).balance@ == old(rt).balance@,
-//@ end
-
-//@ fn actors/miner/src/lib.rs notify_pledge_changed
-    requires !old(rt).in_tx@,
-    ensures
-        pledge_delta@ == 0 ==> r.is_ok() && *final(rt) == *old(rt),
-        pledge_delta@ != 0 ==> rt_frame(old(rt), final(rt)) && final(rt).sends@.len() <= old(rt).sends@.len() + 1,
-        pledge_delta@ != 0 && r.is_ok() ==> rt_pushed(old(rt), final(rt)),
-        pledge_delta@ != 0 && r.is_ok() ==> is_pledge_note(final(rt).sends@.last()) && final(rt).sends@.last().value == 0 && final(rt).sends@.last().ok,
-        pledge_delta@ != 0 && r.is_ok() ==> final(rt).sends@.last().params == Some(IpldBlock { h: cbor_hash(*pledge_delta) }),
-//@ end
-
-//@ fn actors/miner/src/lib.rs request_terminate_deals
-    requires !old(rt).in_tx@,
-    ensures
-        // cron context (origin == system actor): the market's failure is swallowed, the miner's callback goes on
-        old(rt).msg.origin == SYSTEM_ACTOR_ADDR ==> (r.is_ok() || final(rt).sends@.len() == old(rt).sends@.len()),
-        // user context: the error is propagated
-        old(rt).msg.origin != SYSTEM_ACTOR_ADDR && final(rt).sends@.len() > old(rt).sends@.len() && !final(rt).sends@.last().ok ==> r.is_err(),
-        // no send at all for an empty sector set
-        sectors@ =~= vstd::set::Set::<u64>::empty() ==> r.is_ok() && *final(rt) == *old(rt),
-        final(rt).sends@.len() <= old(rt).sends@.len() + 1,
-        final(rt).tx_log == old(rt).tx_log, final(rt).msg == old(rt).msg,
-//@ end
-
-//@ fn actors/miner/src/lib.rs repay_debts_or_abort rt=ref
-    ensures
-        st_rest_eq(*old(state), *final(state)),
-        final(state).pre_commit_deposits == old(state).pre_commit_deposits,
-        final(state).initial_pledge == old(state).initial_pledge,
-        final(state).locked_funds == old(state).locked_funds,
-        final(state).vesting_funds == old(state).vesting_funds,
-        // the gate that blocks withdrawals, pre-commits and recovery declarations while in debt
-        r.is_ok() <==> (unlocked(*old(state), rt.balance@) >= 0 && unlocked(*old(state), rt.balance@) >= old(state).fee_debt@),
-        r.is_ok() ==> r->Ok_0@ == old(state).fee_debt@ && final(state).fee_debt@ == 0,
-//@ end
-
-//@ fn actors/miner/src/policy.rs reward_for_consensus_slash_report
-    ensures r@ == epoch_reward@ / 20,
-//@ end
-//@ fn actors/miner/src/monies.rs consensus_fault_penalty
-    ensures r@ == floor_div(this_epoch_reward@ * 5, 5),
-//@ end
-//@ fn actors/miner/src/lib.rs request_current_epoch_block_reward
-    requires !old(rt).in_tx@,
-    ensures
-        rt_pushed(old(rt), final(rt)), rt_frame(old(rt), final(rt)),
-        final(rt).sends@.last().value == 0 && final(rt).sends@.last().to == REWARD_ACTOR_ADDR
-            && final(rt).sends@.last().method == ext::reward::THIS_EPOCH_REWARD_METHOD,
-        r.is_ok() ==> final(rt).sends@.last().ok && r->Ok_0 == deser_spec::<ThisEpochRewardReturn>(final(rt).sends@.last().ret),
-        // the reward actor does not call back (explicit assumption of the caller): state and balance are as before
-        rt_no_reentry(REWARD_ACTOR_ADDR, ext::reward::THIS_EPOCH_REWARD_METHOD) ==> final(rt).state_id == old(rt).state_id && final(rt).balance == old(rt).balance,
-//@ end
-//@ fn actors/miner/src/lib.rs balance_invariants_broken
-    ensures r.code == 1000,
-//@ end
-
-// ---------------- report_consensus_fault: transaction closure ----------------
-//@ fn actors/miner/src/lib.rs Actor::report_consensus_fault closure=0 as=rcf_tx0 params="st: &mut State, rt: &Rt, fault: &ConsensusFault, fault_penalty: &TokenAmount, slasher_reward: &TokenAmount, pledge_delta: &mut TokenAmount" retty="Result<(TokenAmount, TokenAmount), ActorError>" ret=res derefs=pledge_delta
-    requires
-        st_wf(*old(st)),
-        rt.epoch >= 0, rt_policy().consensus_fault_ineligibility_duration >= 0,
-        rt.epoch + rt_policy().consensus_fault_ineligibility_duration <= i64::MAX,
-    ensures
-        res.is_ok() ==> st_wf(*final(st)),
-        // the whole penalty is charged: what is taken now (burn + reporter share) plus what stays as debt
-        res.is_ok() ==> old(st).fee_debt@ + fault_penalty@ == res->Ok_0.0@ + res->Ok_0.1@ + final(st).fee_debt@,
-        // "a reporter's reward never exceeds what was actually taken from the miner"
-        res.is_ok() ==> res->Ok_0.0@ >= 0 && (slasher_reward@ >= 0 ==> res->Ok_0.1@ >= 0),
-        res.is_ok() ==> res->Ok_0.1@ <= slasher_reward@ || slasher_reward@ < 0,
-        // what is taken never exceeds the unlocked balance: the miner stays solvent after paying it out
-        res.is_ok() ==> res->Ok_0.0@ + res->Ok_0.1@ <= unlocked(*final(st), rt.balance@),
-        // vesting funds unlocked to pay are reported through pledge_delta
-        res.is_ok() ==> final(pledge_delta)@ - old(pledge_delta)@ == final(st).locked_funds@ - old(st).locked_funds@,
-        res.is_ok() ==> final(st).initial_pledge@ == old(st).initial_pledge@,
-        res.is_ok() ==> final(st).pre_commit_deposits@ == old(st).pre_commit_deposits@,
-        res.is_ok() ==> fault_penalty@ >= 0,
-//@ end
-
-// ---------------- report_consensus_fault: whole method ----------------
-pub open spec fn ok_value(s: SendRec) -> int { if s.ok { s.value } else { 0 } }
-/// the consensus-fault penalty as a function of the reward actor's answer (first send of the method)
-pub open spec fn rcf_penalty(q: SendRec) -> int {
-    floor_div(estimate_spec(deser_spec::<ThisEpochRewardReturn>(q.ret).this_epoch_reward_smoothed) * 5, 5)
-}
-
-//@ fn actors/miner/src/lib.rs Actor::report_consensus_fault free tx0="State;rcf_tx0;&mut __vx_st, rt, &fault, &fault_penalty, &slasher_reward, &mut pledge_delta"
-    requires
-        !old(rt).in_tx@,
-        old(rt).sends@.len() == 0,
-        old(rt).tx_log@.len() == 0,
-        old(rt).epoch >= 0, rt_policy().consensus_fault_ineligibility_duration >= 0,
-        old(rt).epoch + rt_policy().consensus_fault_ineligibility_duration <= i64::MAX,
-        st_wf(rt_state::<State>(old(rt).state_id@)),
-        // explicit assumption: the reward actor's ThisEpochReward query does not call back into this miner
-        rt_no_reentry(REWARD_ACTOR_ADDR, ext::reward::THIS_EPOCH_REWARD_METHOD),
-    ensures
-        /*C11*/ r.is_ok() ==> final(rt).validated@.is_some(),
-        r.is_ok() ==> final(rt).tx_log@.len() == 1 && final(rt).sends@.len() >= 2,
-        // sends: [query reward actor] [pay reporter] [burn?] [notify power?]
-        r.is_ok() ==> final(rt).sends@[0].to == REWARD_ACTOR_ADDR && final(rt).sends@[0].value == 0,
-        r.is_ok() ==> final(rt).sends@[1].to == old(rt).msg.caller && final(rt).sends@[1].method == METHOD_SEND,
-        // C15: "every charged amount is either burnt at once or recorded as fee debt ... never flows to the miner":
-        //      penalty + old debt == burnt + actually paid to the reporter + remaining debt
-        r.is_ok() ==> ({
-            let st0 = rt_state::<State>(old(rt).state_id@);
-            let st1 = rt_state::<State>(final(rt).tx_log@[0]);
-            let s = final(rt).sends@;
-            let penalty = rcf_penalty(s[0]);
-            let burnt = if s.len() >= 3 && is_burn(s[2]) { ok_value(s[2]) } else { 0 };
-            st0.fee_debt@ + penalty == burnt + ok_value(s[1]) + st1.fee_debt@
-        }),
-        // C15: the reporter is never paid more than was taken from the miner for this fault
-        r.is_ok() ==> ({
-            let st0 = rt_state::<State>(old(rt).state_id@);
-            let st1 = rt_state::<State>(final(rt).tx_log@[0]);
-            ok_value(final(rt).sends@[1]) <= st0.fee_debt@ + rcf_penalty(final(rt).sends@[0]) - st1.fee_debt@
-        }),
-        // C03: the power actor is told exactly how much the miner's vesting + pledge total changed
-        r.is_ok() ==> ({
-            let st0 = rt_state::<State>(old(rt).state_id@);
-            let st1 = rt_state::<State>(final(rt).tx_log@[0]);
-            let s = final(rt).sends@;
-            let delta = (st1.locked_funds@ + st1.initial_pledge@) - (st0.locked_funds@ + st0.initial_pledge@);
-            delta != 0 ==> is_pledge_note(s.last()) && s.last().ok
-                && exists|d: TokenAmount| s.last().params == Some(IpldBlock { h: #[trigger] cbor_hash(d) }) && d@ == delta
-        }),
-//@ end
-
-// ---------------- withdraw_balance (C14, C01, C03): transaction closure ----------------
-//@ item actors/miner/src/types.rs WithdrawBalanceParams
-//@ item actors/miner/src/types.rs WithdrawBalanceReturn
-//@ fn actors/miner/src/beneficiary.rs BeneficiaryTerm::available
-    ensures
-        // quota left while the term is active, nothing once it has expired
-        r@ == (if self.expiration > cur { if self.quota@ - self.used_quota@ > 0 { self.quota@ - self.used_quota@ } else { 0 } } else { 0 }),
-//@ end
-pub open spec fn imin(a: int, b: int) -> int { if a <= b { a } else { b } }
-/// what a withdrawal may pay: "at most the balance minus vesting funds, pre-commit deposits, initial pledge and fee debt",
-/// capped by the request and — for a beneficiary other than the owner — by the unexpired remaining quota
-pub open spec fn wd_amount(st_after_vesting: State, balance: int, requested: int, info: MinerInfo, epoch: int) -> int {
-    let avail = unlocked(st_after_vesting, balance) - st_after_vesting.fee_debt@;
-    let a = imin(avail, requested);
-    if info.beneficiary != info.owner { imin(a, info.beneficiary_term.quota@ - info.beneficiary_term.used_quota@) } else { a }
-}
-//@ fn actors/miner/src/lib.rs Actor::withdraw_balance closure=0 as=wd_tx0 params="state: &mut State, rt: &mut Rt, params: &WithdrawBalanceParams" retty="Result<(MinerInfo, TokenAmount, TokenAmount, TokenAmount, State), ActorError>" ret=res
-    requires
-        st_wf(*old(state)), old(rt).validated@.is_none(),
-    ensures
-        *final(rt) == (Rt { validated: final(rt).validated, ..*old(rt) }),
-        /*C11*/ res.is_ok() ==> final(rt).validated@.is_some(),
-        res.is_ok() ==> info_of(*old(state)).is_some() && ({
-            let i0 = info_of(*old(state))->Some_0;
-            let (info, amount, newly_vested, fee, st_copy) = res->Ok_0;
-            let vested = vf_sum_before(old(state).vesting_funds@, old(rt).epoch as int);
-            &&& st_wf(*final(state)) && st_copy == *final(state)
-            // "only at the request of owner or beneficiary"
-            &&& /*C11*/ (old(rt).msg.caller == i0.owner || old(rt).msg.caller == i0.beneficiary)
-            // "never while early terminations are unprocessed"
-            &&& old(state).early_terminations@ =~= vstd::set::Set::<u64>::empty()
-            // vesting: exactly what has vested by now unlocks; nothing else moves the locked total
-            &&& newly_vested@ == vested && final(state).locked_funds@ == old(state).locked_funds@ - vested
-            &&& final(state).pre_commit_deposits == old(state).pre_commit_deposits && final(state).initial_pledge == old(state).initial_pledge
-            // "any fee debt is repaid in full as part of the same call"
-            &&& fee@ == old(state).fee_debt@ && final(state).fee_debt@ == 0
-            // the amount: min(available, requested [, remaining quota]) and never negative
-            &&& amount@ == wd_amount(State { locked_funds: final(state).locked_funds, ..*old(state) }, old(rt).balance@, params.amount_requested@, i0, old(rt).epoch as int)
-            &&& amount@ >= 0
-            // after paying `amount` and burning `fee` the miner still covers vesting funds, deposits and pledge (C01)
-            &&& amount@ + fee@ <= unlocked(*final(state), old(rt).balance@)
-            // "within the beneficiary's quota and expiry"
-            &&& (i0.beneficiary != i0.owner ==> i0.beneficiary_term.expiration > old(rt).epoch && i0.beneficiary_term.quota@ - i0.beneficiary_term.used_quota@ > 0
-                    && amount@ <= i0.beneficiary_term.quota@ - i0.beneficiary_term.used_quota@)
-            // the quota actually used is recorded
-            &&& info.owner == i0.owner && info.beneficiary == i0.beneficiary
-            &&& info.beneficiary_term.used_quota@ == i0.beneficiary_term.used_quota@ + (if i0.beneficiary != i0.owner { amount@ } else { 0 })
-            &&& (i0.beneficiary != i0.owner && amount@ > 0 ==> info_of(*final(state)) == Some(info))
-            &&& (!(i0.beneficiary != i0.owner && amount@ > 0) ==> final(state).info == old(state).info)
-        }),
-//@ end
-
-// ---------------- withdraw_balance: whole method ----------------
-//@ fn actors/miner/src/lib.rs Actor::withdraw_balance free tx0="State;wd_tx0;&mut __vx_st, rt, &params"
-    requires
-        !old(rt).in_tx@, old(rt).sends@.len() == 0, old(rt).tx_log@.len() == 0, old(rt).validated@.is_none(),
-        st_wf(rt_state::<State>(old(rt).state_id@)),
-    ensures
-        /*C11*/ r.is_ok() ==> final(rt).validated@.is_some(),
-        r.is_ok() ==> final(rt).tx_log@.len() == 1 && ({
-            let st0 = rt_state::<State>(old(rt).state_id@);
-            let st1 = rt_state::<State>(final(rt).tx_log@[0]);
-            let i0 = info_of(st0)->Some_0;
-            let s = final(rt).sends@;
-            let amount = r->Ok_0.amount_withdrawn@;
-            let fee = st0.fee_debt@;
-            let vested = vf_sum_before(st0.vesting_funds@, old(rt).epoch as int);
-            let k0: int = if amount > 0 { 1 } else { 0 };
-            let k1: int = if fee > 0 { 1 } else { 0 };
-            let k2: int = if vested != 0 { 1 } else { 0 };
-            &&& info_of(st0).is_some()
-            &&& (old(rt).msg.caller == i0.owner || old(rt).msg.caller == i0.beneficiary)
-            &&& params.amount_requested@ >= 0
-            &&& amount == wd_amount(State { locked_funds: st1.locked_funds, ..st0 }, old(rt).balance@, params.amount_requested@, i0, old(rt).epoch as int)
-            &&& amount >= 0 && st1.fee_debt@ == 0 && st1.locked_funds@ == st0.locked_funds@ - vested
-            // exactly these messages leave the actor, in this order: pay the beneficiary, burn the repaid debt, tell the power actor what vested
-            &&& s.len() == k0 + k1 + k2
-            // "only to the beneficiary"
-            &&& (amount > 0 ==> s[0].to == i0.beneficiary && s[0].method == METHOD_SEND && s[0].value == amount && s[0].ok)
-            &&& (fee > 0 ==> is_burn(s[k0]) && s[k0].value == fee && s[k0].ok)
-            &&& (vested != 0 ==> is_pledge_note(s[k0 + k1]) && s[k0 + k1].value == 0 && s[k0 + k1].ok
-                    && exists|d: TokenAmount| s[k0 + k1].params == Some(IpldBlock { h: #[trigger] cbor_hash(d) }) && d@ == -vested)
-        }),
-//@ end
-
+//@ include units/shared/miner_methods.inc
 } // verus!
 fn main() {}
